@@ -133,7 +133,9 @@ def run(pid, tier, seed, replay=None):
     states = transitions = 0
     mc_runs = []
     for name in (mc_plan[0] if quick else mc_plan[0] + mc_plan[1]):
-        with_props = PROPS if (quick or MC[name]["MaxRef"] <= 5) else ""
+        # the action properties are checked on the 4- and 5-referent configurations; the large ones (6 referents, and
+        # the rootless one, whose orphan can be destroyed and moved) check the invariants
+        with_props = PROPS if (quick or (MC[name]["MaxRef"] <= 5 and name != "rootless5")) else ""
         r = model_check(name, with_props, workers)
         v = tlc_violation(r)
         if v:
